@@ -134,6 +134,16 @@ def make_pair(net, variant, rng):
     n = net["nsteps"]
     if variant == "truth_only":
         b["propagation"]["truth_simulation_only"] = True
+        tl = a["engines"][0]["targets"]
+        if len(tl) >= 2 and n >= 2:
+            # both runs: two satellites manoeuvre inside the same physics step (planned, so the filters follow)
+            start = datetime.fromisoformat(net["start"])
+            k0 = rng.randrange(0, n - 1)
+            for j_, tcfg_ in enumerate(tl[:2]):
+                ev = {"scope": "agent_propagation", "scope_instance_id": tcfg_["id"], "start_time": sk.iso(start + timedelta(seconds=net["step"] * k0 + 1 + j_)), "event_type": "impulse",
+                      "thrust_vector": [0.0, 0.002 * (j_ + 1), 0.0], "thrust_frame": "ntw", "planned": True}
+                a["events"].append(copy.deepcopy(ev))
+                b["events"].append(copy.deepcopy(ev))
     elif variant == "ukf_params":
         b["estimation"]["sequential_filter"].update({"alpha": 0.5, "beta": 0.0, "kappa": 1.0, "resample": True})
     elif variant == "policy":
@@ -246,7 +256,13 @@ def make_pair(net, variant, rng):
                "event_type": "target_addition", "tasking_engine_id": 1, "target_agent": sk.target_cfg(19700, r1, v1)}
         a["events"].append(copy.deepcopy(add))
         r0, v0 = sk.circ_state(7600.0, 30.0, 300.0, 10.0)
-        b["engines"][0]["targets"].append(sk.target_cfg(19700, r0, v0))
+        old_sat = sk.target_cfg(19700, r0, v0)
+        if net.get("station_keeping"):
+            # both carriers of the id keep station (each about its own orbit)
+            old_sat["platform"]["station_keeping"] = {"routines": ["LEO"]}
+            for ev_ in (add, a["events"][-1]):
+                ev_["target_agent"]["platform"]["station_keeping"] = {"routines": ["LEO"]}
+        b["engines"][0]["targets"].append(old_sat)
         b["events"].append({"scope": "scenario_step", "scope_instance_id": 0, "start_time": sk.iso(start + timedelta(seconds=net["step"] * i_rm)),
                             "event_type": "agent_removal", "tasking_engine_id": 1, "agent_id": 19700, "agent_type": "target"})
         b["events"].append(copy.deepcopy(add))
@@ -407,6 +423,8 @@ def run(ctx):
                 keep = {k_: net[k_] for k_ in ("truth_model", "station_keeping", "nsteps", "save_filter_steps", "init_pos_std")}
                 net = netkit.gen_network(rng, policies=("MunkresDecision", "MyopicNaiveGreedyDecision", "RandomDecision"), max_sensors=3, max_targets=4)
                 net.update(keep)
+        if variant == "id_reused_after_removal" and rng.random() < 0.6:
+            net["station_keeping"] = True
         if variant in ("id_reused_after_removal", "same_timed_burn_on_other_agent", "split_calls"):
             net["nsteps"] = max(net["nsteps"], 5 if variant == "id_reused_after_removal" else 4)
         if variant == "filter_model":
